@@ -7,8 +7,8 @@ CONSTANTS
   BugIterUncompress = FALSE
   BugDelOpt = FALSE
   BugSkipLeft = FALSE
-  BugRecompute = TRUE
-  BugOptTtl = FALSE
+  BugRecompute = FALSE
+  BugOptTtl = TRUE
   BugOptName = FALSE
   BugInsertOrder = FALSE
 INIT Init2
